@@ -51,6 +51,8 @@ def run(ctx) -> None:
                 f"assemble/patch/cli) x {nprog} programs valid under the mapping; non-trivial = distinct (lattice point, program)")
     ctx.trusted = ["TLC 1.8", "spec/FrontDefs.tla + Ips.tla", "program templates in harness/props/c12.py", "tolerant symbol-file line parser"]
     ctx.assumptions = ["-D values are decimal or 0x hexadecimal integers", "the copier header applies to the IPS format only"]
+    m = tlc.run("MC_C12", "INIT Init\nNEXT Next\nCHECK_DEADLOCK FALSE\nINVARIANT Relations\n", tag="c12.mc", workers=4)
+    ctx.add_tlc(m, "MC_C12: file relations consistent with the writer as specified (and not vacuous)")
     g = tlc.run("GenC12", "INIT Init\nNEXT Next\nCHECK_DEADLOCK FALSE\nINVARIANT Emit\n", tag="c12.gen")
     ctx.add_tlc(g, "GenC12 option lattice")
     points = [c for c in g.printed if isinstance(c, dict) and "mapping" in c]
